@@ -307,6 +307,11 @@ def refusal(seed):
                 bad = ("rlimit_bogus", 1)
             good = [("warmup_delay", 0.2), ("graceful_timeout", 0.4), ("max_retry", 3), ("numprocesses", 2)]
             items = rng.sample(good, rng.choice([0, 1, 1, 2]))
+            if rng.random() < 0.25:
+                # the value most easily let through: a string where a signal is expected (only names of signals are
+                # signals), behind options that are fine and visible when applied
+                bad = ("stop_signal", rng.choice(["NOSUCHSIG", "bogus", "SIGFOO", "TERMX", "sig"]))
+                items = rng.sample(good, rng.choice([1, 2, 3]))
             items = [g for g in items if g[0] != bad[0]]
             items.insert(rng.choice([len(items), len(items), rng.randint(0, len(items))]), bad)
             return {"op": "req", "cmd": "set", "props": {"name": rng.choice(["w1", "w3"]), "options": dict(items),
